@@ -1,158 +1,6 @@
 import ComposeVerif.Lemmas.Graph
-/-! Whatever the iteration order: when `checkConsistency` accepts, the project *as it is left behind*
-(`postState`: replicas aligned with scale, self edges deleted by `newGraph`) satisfies the specification. -/
+/-! The project as `checkConsistency` leaves it (`postState`: replicas aligned with scale) satisfies the same rules. -/
 namespace CV.Consistency
-
-theorem edgesOf_subset (verts disabled : List String) (n : String) :
-    ∀ (deps : List (String × Bool)) (del : Bool) (es : List String),
-      edgesOf verts disabled n del deps = .ok es → ∀ x ∈ es, x ∈ verts
-  | [], _, es, h => by
-    simp only [edgesOf, Except.ok.injEq] at h
-    subst h; intro x hx; cases hx
-  | (dep, req) :: rest, del, es, h => by
-    unfold edgesOf at h
-    by_cases hskip : (del && dep == n) = true
-    · simp only [hskip, if_true] at h
-      exact edgesOf_subset verts disabled n rest del es h
-    · simp only [hskip, Bool.false_eq_true, if_false] at h
-      by_cases hv : verts.contains dep = true
-      · simp only [hv, if_true] at h
-        cases hr : edgesOf verts disabled n del rest with
-        | error e => rw [hr] at h; cases h
-        | ok es' =>
-          rw [hr] at h
-          simp only [Except.ok.injEq] at h
-          subst h
-          intro x hx
-          rcases List.mem_cons.mp hx with rfl | hx
-          · exact List.contains_iff_mem.mp hv
-          · exact edgesOf_subset verts disabled n rest del es' hr x hx
-      · simp only [hv, Bool.false_eq_true, if_false] at h
-        by_cases hq : req = true
-        · simp only [hq, if_true] at h; cases h
-        · simp only [hq, Bool.false_eq_true, if_false] at h
-          exact edgesOf_subset verts disabled n rest true es h
-
-/-- every dependency on an enabled service enters the graph, except a self dependency after the `delete` -/
-theorem edgesOf_mem (verts disabled : List String) (n : String) :
-    ∀ (deps : List (String × Bool)) (del : Bool) (es : List String),
-      edgesOf verts disabled n del deps = .ok es → ∀ b r, (b, r) ∈ deps → b ∈ verts →
-      (b ≠ n ∨ (del = false ∧ ∀ d ∈ deps, d.1 ∈ verts)) → b ∈ es
-  | [], _, _, _, b, r, hm, _, _ => by cases hm
-  | (dep, req) :: rest, del, es, h, b, r, hm, hbv, hc => by
-    unfold edgesOf at h
-    have hc' : ∀ del', (del' = del ∨ b ≠ n) → (b ≠ n ∨ (del' = false ∧ ∀ d ∈ rest, d.1 ∈ verts)) := by
-      intro del' hd
-      rcases hc with hc | ⟨hc1, hc2⟩
-      · exact .inl hc
-      · rcases hd with hd | hd
-        · exact .inr ⟨hd ▸ hc1, fun d hd' => hc2 d (List.mem_cons_of_mem _ hd')⟩
-        · exact .inl hd
-    by_cases hskip : (del && dep == n) = true
-    · simp only [hskip, if_true] at h
-      rcases List.mem_cons.mp hm with heq | hm'
-      · cases heq
-        simp only [Bool.and_eq_true, beq_iff_eq] at hskip
-        rcases hc with hc | ⟨hc, -⟩
-        · exact absurd hskip.2 hc
-        · rw [hskip.1] at hc; cases hc
-      · exact edgesOf_mem verts disabled n rest del es h b r hm' hbv (hc' del (.inl rfl))
-    · simp only [hskip, Bool.false_eq_true, if_false] at h
-      by_cases hv : verts.contains dep = true
-      · simp only [hv, if_true] at h
-        cases hr : edgesOf verts disabled n del rest with
-        | error e => rw [hr] at h; cases h
-        | ok es' =>
-          rw [hr] at h
-          simp only [Except.ok.injEq] at h
-          subst h
-          rcases List.mem_cons.mp hm with heq | hm'
-          · cases heq; exact List.mem_cons_self ..
-          · exact List.mem_cons_of_mem _ (edgesOf_mem verts disabled n rest del es' hr b r hm' hbv (hc' del (.inl rfl)))
-      · simp only [hv, Bool.false_eq_true, if_false] at h
-        by_cases hq : req = true
-        · simp only [hq, if_true] at h; cases h
-        · simp only [hq, Bool.false_eq_true, if_false] at h
-          have hdv : dep ∉ verts := fun hh => hv (List.contains_iff_mem.mpr hh)
-          rcases List.mem_cons.mp hm with heq | hm'
-          · cases heq; exact absurd hbv hdv
-          · have hbn : b ≠ n := by
-              rcases hc with hc | ⟨-, hc⟩
-              · exact hc
-              · exact absurd (hc (dep, req) (List.mem_cons_self ..)) hdv
-            exact edgesOf_mem verts disabled n rest true es h b r hm' hbv (.inl hbn)
-
-/-- `edgesOf` succeeds only if every dependency is an enabled service, optional, or the service itself -/
-theorem edgesOf_ok_deps (verts disabled : List String) (n : String) :
-    ∀ (deps : List (String × Bool)) (del : Bool) (es : List String),
-      edgesOf verts disabled n del deps = .ok es → ∀ d ∈ deps, d.1 ∈ verts ∨ d.2 = false ∨ d.1 = n
-  | [], _, _, _, d, hd => by cases hd
-  | (dep, req) :: rest, del, es, h, d, hd => by
-    unfold edgesOf at h
-    by_cases hskip : (del && dep == n) = true
-    · simp only [hskip, if_true] at h
-      rcases List.mem_cons.mp hd with rfl | hd'
-      · simp only [Bool.and_eq_true, beq_iff_eq] at hskip
-        exact .inr (.inr hskip.2)
-      · exact edgesOf_ok_deps verts disabled n rest del es h d hd'
-    · simp only [hskip, Bool.false_eq_true, if_false] at h
-      by_cases hv : verts.contains dep = true
-      · simp only [hv, if_true] at h
-        rcases List.mem_cons.mp hd with rfl | hd'
-        · exact .inl (List.contains_iff_mem.mp hv)
-        · cases hr : edgesOf verts disabled n del rest with
-          | error e => rw [hr] at h; cases h
-          | ok es' => exact edgesOf_ok_deps verts disabled n rest del es' hr d hd'
-      · simp only [hv, Bool.false_eq_true, if_false] at h
-        by_cases hq : req = true
-        · simp only [hq, if_true] at h; cases h
-        · simp only [hq, Bool.false_eq_true, if_false] at h
-          rcases List.mem_cons.mp hd with rfl | hd'
-          · exact .inr (.inl (by simpa using hq))
-          · exact edgesOf_ok_deps verts disabled n rest true es h d hd'
-
-/-- shape of a successfully built graph -/
-theorem buildGraph_lookup (verts disabled : List String) :
-    ∀ (l : List (String × Svc)) (g : Graph), buildGraph verts disabled l = .ok g → (l.map Prod.fst).Nodup →
-      g.map Prod.fst = l.map Prod.fst ∧
-      ∀ n s, (n, s) ∈ l → ∃ es, edgesOf verts disabled n false s.dependsOn = .ok es ∧ g.lookup n = some es
-  | [], g, h, _ => by
-    simp only [buildGraph, Except.ok.injEq] at h
-    subst h
-    exact ⟨rfl, fun n s hm => by cases hm⟩
-  | (k, v) :: r, g, h, hn => by
-    unfold buildGraph at h
-    cases he : edgesOf verts disabled k false v.dependsOn with
-    | error e => rw [he] at h; cases h
-    | ok es =>
-      cases hr : buildGraph verts disabled r with
-      | error e => rw [he, hr] at h; cases h
-      | ok g' =>
-        rw [he, hr] at h
-        simp only [Except.ok.injEq] at h
-        subst h
-        simp only [List.map_cons, List.nodup_cons] at hn
-        obtain ⟨ih1, ih2⟩ := buildGraph_lookup verts disabled r g' hr hn.2
-        refine ⟨by simp [ih1], ?_⟩
-        intro n s hm
-        rcases List.mem_cons.mp hm with heq | hm'
-        · cases heq
-          exact ⟨es, he, by simp [List.lookup_cons]⟩
-        · obtain ⟨es', h1, h2⟩ := ih2 n s hm'
-          have hne : (n == k) = false := by
-            have : n ≠ k := fun hnk => hn.1 (hnk ▸ List.mem_map.mpr ⟨(n, s), hm', rfl⟩)
-            simpa using this
-          exact ⟨es', h1, by simp only [List.lookup_cons, hne]; exact h2⟩
-
-theorem lookup_mem_keys {β : Type} : ∀ (g : List (String × β)) (n : String) (b : β), g.lookup n = some b → n ∈ g.map Prod.fst
-  | [], _, _, h => by simp at h
-  | (k, v) :: r, n, b, h => by
-    simp only [List.lookup_cons] at h
-    by_cases hnk : (n == k) = true
-    · have : n = k := by simpa using hnk
-      simp [this]
-    · simp only [hnk] at h
-      exact List.mem_cons_of_mem _ (lookup_mem_keys r n b h)
 
 /-! ## the post state -/
 
@@ -162,33 +10,6 @@ theorem postState_enabled (p : Proj) : (postState p).enabled = p.enabled := by
 theorem normalizeSvc_dependsOn (s : Svc) : (normalizeSvc s).dependsOn = s.dependsOn := by
   unfold normalizeSvc
   cases s.scale <;> cases s.deploy <;> rfl
-
-theorem postSvc_deps_subset (verts : List String) (n : String) (s : Svc) :
-    ∀ d ∈ (postSvc verts n s).dependsOn, d ∈ s.dependsOn := by
-  intro d hd
-  unfold postSvc at hd
-  simp only at hd
-  split at hd
-  · simp only [List.mem_filter, normalizeSvc_dependsOn] at hd
-    exact hd.1
-  · rw [normalizeSvc_dependsOn] at hd; exact hd
-
-/-- the post state of a service: `depends_on` shrinks to `deps'`, `deploy.replicas` follows `scale` -/
-theorem postSvc_shape (verts : List String) (n : String) (s : Svc) :
-    ∃ deps', (∀ d ∈ deps', d ∈ s.dependsOn) ∧
-      postSvc verts n s = { normalizeSvc s with dependsOn := deps' } := by
-  refine ⟨(postSvc verts n s).dependsOn, postSvc_deps_subset verts n s, ?_⟩
-  unfold postSvc
-  simp only
-  split <;> rfl
-
-theorem holds_deps_shrink (p : Proj) (s : Svc) (deps' : List (String × Bool)) (hsub : ∀ d ∈ deps', d ∈ s.dependsOn)
-    (r : Rule) (h : Holds p s r) : Holds (postState p) { s with dependsOn := deps' } r := by
-  have hen := postState_enabled p
-  cases r <;> simp only [Holds, hen, getScale] at h ⊢ <;>
-    first
-    | exact h
-    | (intro d hd; exact h d (hsub d hd))
 
 theorem holds_normalize (p : Proj) (s : Svc) (r : Rule) (h : Holds p s r) : Holds p (normalizeSvc s) r := by
   cases hsc : s.scale with
@@ -209,156 +30,18 @@ theorem holds_normalize (p : Proj) (s : Svc) (r : Rule) (h : Holds p s r) : Hold
         | exact h
         | grind
 
-theorem holds_post (p : Proj) (n : String) (s : Svc) (r : Rule) (h : Holds p s r) :
-    Holds (postState p) (postSvc p.enabled n s) r := by
-  obtain ⟨deps', hsub, heq⟩ := postSvc_shape p.enabled n s
-  rw [heq]
-  exact holds_deps_shrink p (normalizeSvc s) deps' (fun d hd => by rw [normalizeSvc_dependsOn]; exact hsub d hd) r
-    (holds_normalize p s r h)
+theorem holds_post (p : Proj) (s : Svc) (r : Rule) (h : Holds p s r) : Holds (postState p) (normalizeSvc s) r := by
+  have hn := holds_normalize p s r h
+  have hen := postState_enabled p
+  cases r <;> simp only [Holds, hen] at hn ⊢ <;> exact hn
 
-theorem deletesSelf_normalize (verts : List String) (s : Svc) : deletesSelf verts (normalizeSvc s) = deletesSelf verts s := by
-  unfold deletesSelf; rw [normalizeSvc_dependsOn]
-
-theorem postSvc_mem (verts : List String) (n : String) (s : Svc) (d : String × Bool) (hd : d ∈ (postSvc verts n s).dependsOn) :
-    d ∈ s.dependsOn ∧ (deletesSelf verts s = true → d.1 ≠ n) := by
-  refine ⟨postSvc_deps_subset verts n s d hd, fun hdel => ?_⟩
-  unfold postSvc at hd
-  simp only [deletesSelf_normalize, hdel, if_true, List.mem_filter, bne_iff_ne] at hd
-  exact hd.2
-
-/-- the graph `newGraph` builds contains every edge of the dependency relation of the *post state* -/
-theorem postState_edges_in_graph (p : Proj) (hnd : p.enabled.Nodup) (g : Graph) (hg : newGraph p = .ok g)
-    (a b : String) (h : DepRel (postState p) a b) : g.E a b := by
-  obtain ⟨-, hlook⟩ := buildGraph_lookup p.enabled p.disabled p.services g hg hnd
+theorem depRel_post (p : Proj) (a b : String) (h : DepRel (postState p) a b) : DepRel p a b := by
   obtain ⟨s', hs', hb, r, hr⟩ := h
   rw [postState_enabled] at hb
   simp only [postState, List.mem_map] at hs'
   obtain ⟨e, he, heq⟩ := hs'
   cases heq
-  obtain ⟨es, hes, hl⟩ := hlook e.1 e.2 he
-  obtain ⟨hm, hdel⟩ := postSvc_mem p.enabled e.1 e.2 (b, r) hr
-  have hae : e.1 ∈ p.enabled := List.mem_map.mpr ⟨e, he, rfl⟩
-  unfold Graph.E Graph.children
-  rw [hl]
-  refine edgesOf_mem p.enabled p.disabled e.1 e.2.dependsOn false es hes b r hm hb ?_
-  cases hds : deletesSelf p.enabled e.2 with
-  | true => exact .inl (hdel hds)
-  | false =>
-    right
-    refine ⟨rfl, fun d hd => ?_⟩
-    have h1 := edgesOf_ok_deps p.enabled p.disabled e.1 e.2.dependsOn false es hes d hd
-    unfold deletesSelf at hds
-    rw [List.any_eq_false] at hds
-    have h2 := hds d hd
-    rcases h1 with h1 | h1 | h1
-    · exact h1
-    · simp only [h1, Bool.not_false, Bool.and_true, Bool.not_eq_true, Bool.not_eq_false'] at h2
-      exact List.contains_iff_mem.mp h2
-    · rw [h1]; exact hae
-
-theorem newGraph_closed (p : Proj) (hnd : p.enabled.Nodup) (g : Graph) (hg : newGraph p = .ok g) : g.Closed := by
-  obtain ⟨hkeys, hlook⟩ := buildGraph_lookup p.enabled p.disabled p.services g hg hnd
-  intro v c hc
-  unfold Graph.children at hc
-  cases hl : g.lookup v with
-  | none => simp [hl] at hc
-  | some cs =>
-    simp only [hl] at hc
-    have hv : v ∈ p.services.map Prod.fst := hkeys ▸ lookup_mem_keys g v cs hl
-    obtain ⟨e, he, rfl⟩ := List.mem_map.mp hv
-    obtain ⟨es, hes, hl'⟩ := hlook e.1 e.2 he
-    rw [hl] at hl'
-    cases hl'
-    have := edgesOf_subset p.enabled p.disabled e.1 e.2.dependsOn false cs hes c hc
-    unfold Graph.keys
-    rw [hkeys]
-    exact this
-
-end CV.Consistency
-
-namespace CV.Consistency
-
-/-- `newGraph`'s inner loop fails iff some *required* dependency is not an enabled service (whatever the order) -/
-theorem edgesOf_error_iff (verts disabled : List String) (n : String) (hn : n ∈ verts) :
-    ∀ (deps : List (String × Bool)) (del : Bool),
-      (∃ e, edgesOf verts disabled n del deps = .error e) ↔ ∃ d ∈ deps, d.1 ∉ verts ∧ d.2 = true
-  | [], _ => by simp [edgesOf]
-  | (dep, req) :: rest, del => by
-    unfold edgesOf
-    by_cases hskip : (del && dep == n) = true
-    · simp only [hskip, if_true]
-      rw [edgesOf_error_iff verts disabled n hn rest del]
-      simp only [Bool.and_eq_true, beq_iff_eq] at hskip
-      constructor
-      · rintro ⟨d, hd, h⟩; exact ⟨d, List.mem_cons_of_mem _ hd, h⟩
-      · rintro ⟨d, hd, h⟩
-        rcases List.mem_cons.mp hd with rfl | hd'
-        · exact absurd (hskip.2 ▸ hn) h.1
-        · exact ⟨d, hd', h⟩
-    · simp only [hskip, Bool.false_eq_true, if_false]
-      by_cases hv : verts.contains dep = true
-      · simp only [hv, if_true]
-        have hdv : dep ∈ verts := List.contains_iff_mem.mp hv
-        have ih := edgesOf_error_iff verts disabled n hn rest del
-        constructor
-        · rintro ⟨e, he⟩
-          cases hr : edgesOf verts disabled n del rest with
-          | ok es => rw [hr] at he; cases he
-          | error e' =>
-            obtain ⟨d, hd, h⟩ := ih.mp ⟨e', hr⟩
-            exact ⟨d, List.mem_cons_of_mem _ hd, h⟩
-        · rintro ⟨d, hd, h⟩
-          rcases List.mem_cons.mp hd with rfl | hd'
-          · exact absurd hdv h.1
-          · obtain ⟨e', he'⟩ := ih.mpr ⟨d, hd', h⟩
-            exact ⟨e', by rw [he']⟩
-      · simp only [hv, Bool.false_eq_true, if_false]
-        have hdv : dep ∉ verts := fun hh => hv (List.contains_iff_mem.mpr hh)
-        cases req with
-        | true =>
-          simp only [if_true]
-          exact ⟨fun _ => ⟨(dep, true), List.mem_cons_self .., hdv, rfl⟩, fun _ => ⟨_, rfl⟩⟩
-        | false =>
-          simp only [Bool.false_eq_true, if_false]
-          rw [edgesOf_error_iff verts disabled n hn rest true]
-          constructor
-          · rintro ⟨d, hd, h⟩; exact ⟨d, List.mem_cons_of_mem _ hd, h⟩
-          · rintro ⟨d, hd, h⟩
-            rcases List.mem_cons.mp hd with rfl | hd'
-            · exact absurd h.2 (by simp)
-            · exact ⟨d, hd', h⟩
-
-theorem buildGraph_error_iff (verts disabled : List String) :
-    ∀ (l : List (String × Svc)), (∀ e ∈ l, e.1 ∈ verts) →
-      ((∃ err, buildGraph verts disabled l = .error err) ↔ ∃ e ∈ l, ∃ d ∈ e.2.dependsOn, d.1 ∉ verts ∧ d.2 = true)
-  | [], _ => by simp [buildGraph]
-  | (n, s) :: r, hl => by
-    have hn : n ∈ verts := hl (n, s) (List.mem_cons_self ..)
-    have h1 := edgesOf_error_iff verts disabled n hn s.dependsOn false
-    have ih := buildGraph_error_iff verts disabled r (fun e he => hl e (List.mem_cons_of_mem _ he))
-    unfold buildGraph
-    constructor
-    · rintro ⟨err, herr⟩
-      cases he : edgesOf verts disabled n false s.dependsOn with
-      | error e' =>
-        obtain ⟨d, hd, h⟩ := h1.mp ⟨e', he⟩
-        exact ⟨(n, s), List.mem_cons_self .., d, hd, h⟩
-      | ok es =>
-        rw [he] at herr
-        cases hr : buildGraph verts disabled r with
-        | ok g => rw [hr] at herr; cases herr
-        | error e' =>
-          obtain ⟨e, hem, h⟩ := ih.mp ⟨e', hr⟩
-          exact ⟨e, List.mem_cons_of_mem _ hem, h⟩
-    · rintro ⟨e, hem, d, hd, h⟩
-      cases he : edgesOf verts disabled n false s.dependsOn with
-      | error e' => exact ⟨e', rfl⟩
-      | ok es =>
-        simp only
-        rcases List.mem_cons.mp hem with rfl | hem'
-        · obtain ⟨e', he'⟩ := h1.mpr ⟨d, hd, h⟩
-          rw [he] at he'; cases he'
-        · obtain ⟨e', he'⟩ := ih.mpr ⟨e, hem', d, hd, h⟩
-          exact ⟨e', by rw [he']⟩
+  rw [normalizeSvc_dependsOn] at hr
+  exact ⟨e.2, he, hb, r, hr⟩
 
 end CV.Consistency
